@@ -17,6 +17,7 @@ DOC = {
     'numpy.random.shuffle': 'np.random.shuffle(x): in-place application of an ARBITRARY permutation (havoc)',
     'numpy.random.randint': 'np.random.randint(lo,hi,size=m): ANY integer array of length m with lo <= entries < hi (havoc)',
     'numpy.array': 'np.array(list): same elements',
+    'numpy.maximum': 'np.maximum / np.minimum act element-wise (proved here per entry on real scalars)',
     'numpy.sqrt': 'np.sqrt(m) for an integer m >= 0 is the non-negative real root (exact float assumption below 2^52)',
     'numpy.ceil': 'np.ceil(np.sqrt(m)) is the least integer c with c*c >= m (exact float assumption below 2^52)',
     'numpy.kron': 'np.kron(a,b) of 1-D arrays: entry t = a[t div len(b)] * b[t mod len(b)]',
@@ -90,6 +91,16 @@ def install(E):
             return SV(z3.ToInt(x.z), 'int')
         return E.app('numpy.floor', [x])
     L['numpy.floor'] = np_floor
+
+    def np_minmax(which):
+        def f(E, a, b):
+            if E.is_numeric(a) and E.is_numeric(b):
+                x, y = E.as_real(a), E.as_real(b)
+                return SV(z3.If(x >= y, x, y) if which == 'max' else z3.If(x <= y, x, y), 'real')
+            return E.app(f'numpy.{which}imum', [a, b])
+        return f
+    L['numpy.maximum'] = np_minmax('max')
+    L['numpy.minimum'] = np_minmax('min')
 
     def np_sqrt(E, x):
         if isinstance(x, (int, float)) and not isinstance(x, bool):
